@@ -320,6 +320,8 @@ class Evaluator:
             self._assign(st.target, nv, st, aug=True)
         elif isinstance(st, ast.If):
             c = self.decide(st.test)
+            if any(isinstance(x, ast.NamedExpr) for x in ast.walk(st.test)):
+                self.ev(st.test)          # bind the walrus targets of the test
             if c is True:
                 self.run(st.body)
             elif c is False:
@@ -512,6 +514,16 @@ def text_cond(table):
 
 
 # ---------------------------------------------------------------------------
+class DictValue:
+    """a literal dict with constant keys (lookup table): key -> value"""
+
+    def __init__(self, d):
+        self.d = d
+
+    def __repr__(self):
+        return "DictValue(%s)" % ", ".join(f"{k!r}: {v!r}" for k, v in self.d.items())
+
+
 class AutoEvaluator(Evaluator):
     """Evaluator in which everything that is not computed inside the function is a symbol of its own:
 
@@ -528,6 +540,7 @@ class AutoEvaluator(Evaluator):
     def __init__(self, fn=None, **kw):
         kw.setdefault("erase_subscripts", False)
         super().__init__(**kw)
+        self._folding = set()
         self.cells = []
         self.calls = []          # (dotted callee or '.method', [positional values], {keyword: value}, node) in evaluation order
         self.seq = 0             # evaluation clock: cell_seq[i] / call_seq[i] order stores and calls against each other
@@ -547,6 +560,8 @@ class AutoEvaluator(Evaluator):
 
     erase_T = False          # matrices as commuting symbols: `.T` is the matrix itself
 
+    module_consts = None     # {name: ast value node} of module-level names bound once to a literal (sem.module_consts): folded on use
+    _folding = frozenset()
     forward_stores = False   # a load `X[i]` of a buffer returns the value last stored under the same (evaluated) index
     loop_unroll = 0          # `for k in range(a, b)` with constant bounds and at most this many iterations is executed iteration by iteration
     loop_once = False        # `for x in it:` - evaluate the body once for a generic iteration (x a symbol): per-iteration stores and calls are recorded
@@ -564,6 +579,25 @@ class AutoEvaluator(Evaluator):
                 if hi - lo <= self.loop_unroll:
                     for k in range(lo, hi):
                         self.env[st.target.id] = F.const(k)
+                        self.run(st.body)
+                        if self.done:
+                            break
+                    return
+        if isinstance(st, ast.While) and self.loop_unroll and not self.done and isinstance(st.test, ast.Compare) and len(st.test.ops) == 1 \
+                and isinstance(st.test.ops[0], (ast.Lt, ast.LtE)) and isinstance(st.test.left, ast.Name) and not st.orelse:
+            # a counted loop `while i < n:` with `i += 1` as its only update of i and constant bounds
+            ctr = st.test.left.id
+            incs = [x for x in ast.walk(st) if isinstance(x, ast.AugAssign) and isinstance(x.target, ast.Name) and x.target.id == ctr]
+            other = [x for x in ast.walk(st) if isinstance(x, (ast.Assign, ast.NamedExpr)) and any(isinstance(t, ast.Name) and t.id == ctr for t in
+                                                                                                    (x.targets if isinstance(x, ast.Assign) else [x.target]))]
+            cur = self.env.get(ctr)
+            hi = self.ev(st.test.comparators[0])
+            if len(incs) == 1 and not other and incs[0] in st.body and isinstance(incs[0].op, ast.Add) and isinstance(incs[0].value, ast.Constant) \
+                    and incs[0].value.value == 1 and cur is not None and not is_unknown(cur) and not isinstance(cur, tuple) and cur.is_const() \
+                    and not is_unknown(hi) and not isinstance(hi, tuple) and hi.is_const():
+                lo_, hi_ = int(cur.const_value()), int(hi.const_value()) + (1 if isinstance(st.test.ops[0], ast.LtE) else 0)
+                if 0 <= hi_ - lo_ <= self.loop_unroll:
+                    for _k in range(lo_, hi_):
                         self.run(st.body)
                         if self.done:
                             break
@@ -610,6 +644,13 @@ class AutoEvaluator(Evaluator):
                 return F.sym(node.id)
             if node.id in self.env:
                 return self.env[node.id]
+            if self.module_consts and node.id in self.module_consts and node.id not in self._folding:
+                # a module-level name bound once to a literal (moved-out constant / lookup table): its value
+                self._folding.add(node.id)
+                try:
+                    return self._ev(self.module_consts[node.id])
+                finally:
+                    self._folding.discard(node.id)
             if node.id in CONSTS:
                 return F.sym(CONSTS[node.id])
             if node.id in ("None", "True", "False"):
@@ -647,6 +688,18 @@ class AutoEvaluator(Evaluator):
             if is_unknown(v) or isinstance(v, tuple):
                 return v if is_unknown(v) else Unknown("not of a tuple")
             return F.fn("not" if isinstance(node.op, ast.Not) else "invert", need(v))
+        if isinstance(node, ast.NamedExpr) and isinstance(node.target, ast.Name):
+            v = self._ev(node.value)
+            self._assign(node.target, v, node)
+            return self._ev(node.target) if node.target.id in self.buffers else v
+        if isinstance(node, ast.Dict) and node.keys and all(isinstance(k, ast.Constant) for k in node.keys):
+            return DictValue({k.value: self.ev(v) for k, v in zip(node.keys, node.values)})
+        if isinstance(node, ast.Subscript) and isinstance(node.slice, ast.Constant) and not isinstance(node.slice.value, (int, float, complex)):
+            base = self._ev(node.value) if not (isinstance(node.value, ast.Name) and node.value.id in self.buffers) else None
+            if isinstance(base, DictValue):
+                if node.slice.value in base.d:
+                    return base.d[node.slice.value]
+                return Unknown(f"key {node.slice.value!r} not in the literal table")
         if isinstance(node, ast.Attribute) and self.erase_T and node.attr == "T":
             return self._ev(node.value)
         if isinstance(node, ast.Attribute):
@@ -755,6 +808,16 @@ class AutoEvaluator(Evaluator):
             r = self._inline_call(node)
             if r is not NotImplemented:
                 return r
+        if dotted(node.func) == "getattr" and len(node.args) in (2, 3) and isinstance(node.args[1], ast.Constant) and isinstance(node.args[1].value, str):
+            return self._ev(ast.copy_location(ast.Attribute(value=node.args[0], attr=node.args[1].value, ctx=ast.Load()), node))
+        if dotted(node.func) == "setattr" and len(node.args) == 3 and isinstance(node.args[1], ast.Constant) and isinstance(node.args[1].value, str):
+            v = self.ev(node.args[2])
+            self._assign(ast.copy_location(ast.Attribute(value=node.args[0], attr=node.args[1].value, ctx=ast.Store()), node), v, node)
+            return F.sym("None")
+        if self.erase_T and dotted(node.func) in ("np.transpose", "numpy.transpose") and len(node.args) == 1 and not node.keywords:
+            return self._ev(node.args[0])
+        if self.erase_T and isinstance(node.func, ast.Attribute) and node.func.attr == "transpose" and not node.args and not node.keywords:
+            return self._ev(node.func.value)
         self._record_call(node)
         r = super()._call(node)
         if not is_unknown(r):
